@@ -46,11 +46,11 @@ def struct_field_names(prog, sem, wv):
 def run(prog, world, sem, rep):
     rep.rule("C20.a", "every value stored to a bounded field (hub peg_recovery_fee, er_threshold; dispatcher krp_keeper_rate) is the "
              "previously stored value, or min(., 1), or an incoming value v whose write is reachable only through the edge v <= 1 "
-             "(or the edge on which the incoming option was observed absent)", 16)
+             "(or the edge on which the incoming option was observed absent)", 12)
     rep.rule("C20.b", "frozen fields (hub underlying_coin_denom, dispatcher stsei_reward_denom) are only ever re-stored with their "
-             "stored value outside instantiate; a present stsei_reward_denom in the dispatcher's UpdateConfig has no success exit", 13)
+             "stored value outside instantiate; a present stsei_reward_denom in the dispatcher's UpdateConfig has no success exit", 9)
     rep.rule("C20.c", "for every update variant each stored field is written only with its own stored value or the message field "
-             "tabled for it; all other fields are preserved", 181)
+             "tabled for it; all other fields are preserved", 93)
 
     # collect all writers per contract: instantiate + every execute variant
     writers = {}  # (contract, cell) -> list of (origin, vis, bb, kind, val)
@@ -74,7 +74,7 @@ def run(prog, world, sem, rep):
             wv = sem.written_value(kind, cell, val)
             inst = "%s::%s writes %s.%s in %s" % (c, origin, cell.split("::")[-1], fld, vis.body.path)
             if wv is None:
-                rep.ob("C20.a", inst, False, "cannot evaluate written value", where(vis.body, bb))
+                rep.ob("C20.a", inst, False, "cannot evaluate written value", where(vis.body, bb), fkey="%s::%s %s.%s" % (c, origin, cell, fld))
                 continue
             fv = sem.field_of(wv, fld)
             bad = []
@@ -105,7 +105,7 @@ def run(prog, world, sem, rep):
                 else:
                     bad.append("incoming value %s stored without an upper-bound check: %s" % (lab, d))
             rep.ob("C20.a", inst, not bad, "; ".join(bad) if bad else "; ".join(notes), where(vis.body, bb),
-                   key="C20.a | %s::%s | %s | %s.%s" % (c, origin, vis.body.path, cell, fld))
+                   key="C20.a | %s::%s | %s | %s.%s" % (c, origin, vis.body.path, cell, fld), fkey="%s::%s %s.%s" % (c, origin, cell, fld))
 
     # ---------------- C20.b
     for c, cell, fld in FROZEN:
@@ -117,7 +117,7 @@ def run(prog, world, sem, rep):
             ok = all(l == stored(cell, fld) for l in labs)
             rep.ob("C20.b", "%s::%s preserves %s.%s (%s)" % (c, origin, cell.split("::")[-1], fld, vis.body.path), ok,
                    "frozen field written with %s" % labs if not ok else "re-stored with its stored value", where(vis.body, bb),
-                   key="C20.b | %s::%s | %s | %s" % (c, origin, vis.body.path, fld))
+                   key="C20.b | %s::%s | %s | %s" % (c, origin, vis.body.path, fld), fkey="%s::%s %s.%s" % (c, origin, cell, fld))
     ex = entry(prog, "dispatcher")
     OPT = "std::option::Option"
     env = variant_env(prog, ex, "UpdateConfig", {"stsei_reward_denom": ("enum", "Some", (None,), OPT)})
@@ -145,7 +145,7 @@ def run(prog, world, sem, rep):
                 # whole-struct copy of the stored value is a preservation of every field
                 lab = sem.label(wv) if wv is not None else None
                 rep.ob("C20.c", "%s::%s whole-struct write in %s" % (c, variant, vis.body.path), lab == stored(cell),
-                       "whole value written: %s" % (lab,), where(vis.body, bb))
+                       "whole value written: %s" % (lab,), where(vis.body, bb), fkey="%s::%s whole-struct write" % (c, variant))
                 continue
             for f in names:
                 fv = sem.field_of(wv, f)
@@ -172,7 +172,7 @@ def run(prog, world, sem, rep):
                 rep.ob("C20.c", "%s::%s %s.%s in %s" % (c, variant, cell.split("::")[-1], f, vis.body.path), ok,
                        "field %s written with %s (allowed: its stored value%s)" % (f, labs, ", message field %s" % table[f] if f in table else "")
                        if not ok else "sources %s" % [l[-1] if l else l for l in labs], where(vis.body, bb),
-                       key="C20.c | %s::%s | %s | %s" % (c, variant, vis.body.path, f))
+                       key="C20.c | %s::%s | %s | %s" % (c, variant, vis.body.path, f), fkey="%s::%s %s.%s" % (c, variant, cell, f))
         for f in table:
             rep.ob("C20.c", "%s::%s updates %s" % (c, variant, f), f in touched,
                    "tabled message field %s is never stored to %s.%s" % (table[f], cell, f) if f not in touched else "stored from the message",
